@@ -59,6 +59,9 @@ def sower_facts(ctx):
     f.exit = sower.methods.get("__exit__")
     f.init = sower.methods.get("__init__")
     need(f.call and f.exit and f.init, "anchor lost: Sower.__call__/__exit__/__init__")
+    from ..util import inline_setter_calls
+    for m_ in list(sower.methods.values()):
+        inline_setter_calls(ctx, m_)
     flushers = [m for m in sower.methods.values() if any(nm == WRITER for _, _, nm in all_calls(ctx, m))]
     need(len(flushers) == 1, "anchor lost: expected exactly one Sower method calling the crop-file writer, found %d" % len(flushers))
     f.flush = flushers[0]
@@ -107,6 +110,19 @@ def sower_facts(ctx):
         f.cut = None
         return f
     # cut test: the test in __call__ whose true branch flushes; in-batch counter: its attribute side
+    # (a test delegated to a one-return predicate of the class is read through the predicate)
+    for if_ in [x for x in walk_shallow(f.call.node) if isinstance(x, ast.If)]:
+        if any(isinstance(x, ast.Call) for x in ast.walk(if_.test)) and not isinstance(if_.test, ast.Compare):
+            new_t = inline_helpers(ctx, f.call, if_.test)
+            if norm(new_t) != norm(if_.test):
+                new_t._parent = if_
+                ast.copy_location(new_t, if_.test)
+                for x in ast.walk(new_t):
+                    if not hasattr(x, "lineno"):
+                        x.lineno, x.col_offset, x.end_lineno, x.end_col_offset = if_.test.lineno, if_.test.col_offset, if_.test.end_lineno, if_.test.end_col_offset
+                if_.test = new_t
+                from .. import cfg as _cfgmod
+                _cfgmod._CACHE.pop(id(f.call.node), None)
     gc = build_cfg(f.call.node)
     f.cut = None
     for n in gc.nodes:
@@ -143,11 +159,20 @@ def sower_machine_rule(ctx, rid):
     # ---- __init__ starts from zero / empty
     gi = build_cfg(f.init.node)
     ctx.touch(f.init, gi)
+    def _stored_in_helper(fn, path):
+        """the attribute is stored by a method of the class that `fn` calls (and that could not be inlined): not a shape to judge"""
+        for c_ in ast.walk(fn.node):
+            if isinstance(c_, ast.Call) and isinstance(c_.func, ast.Attribute) and isinstance(c_.func.value, ast.Name) and c_.func.value.id == "self":
+                m_ = f.cls.find_method(c_.func.attr)
+                if m_ is not None and hasattr(m_, "node") and m_ is not fn and any(isinstance(t_, ast.Attribute) and path_key(t_) == path and isinstance(t_.ctx, ast.Store) for t_ in ast.walk(m_.node)):
+                    raise AnalysisError("idiom changed: %s.%s leaves the store of %s to its helper `%s`, which has more than plain stores in it" % (S, fn.name, path, m_.name))
     for path, want in ((f.counter, "0"),) + (() if f.inbatch_derived else ((f.inbatch, "0"),)):
         a = _assign_nodes(gi, path)
         if len(a) == 1 and norm(a[0].ast.value) == want:
             rr.ok("%s.__init__: %s = %s" % (S, path, want))
         else:
+            if not a:
+                _stored_in_helper(f.init, path)
             nd = a[0].ast if a else f.init.node
             rr.bad(ctx.finding(rid, f.init, nd, "%s does not start at %s: batch ids / sizes are shifted (found %s)" % (path, want, [norm(x.ast) for x in a]),
                                construct="init " + path), "init %s" % path)
@@ -155,6 +180,8 @@ def sower_machine_rule(ctx, rid):
     if len(a) == 1 and norm(a[0].ast.value) in ("[]", "list()"):
         rr.ok("%s.__init__: %s = []" % (S, f.buffer))
     else:
+        if not a:
+            _stored_in_helper(f.init, f.buffer)
         rr.bad(ctx.finding(rid, f.init, f.init.node, "%s does not start empty" % f.buffer, construct="init " + f.buffer), "init buffer")
 
     # ---- flush: increment before name, resets after write, on every path
@@ -187,6 +214,8 @@ def sower_machine_rule(ctx, rid):
         if okr:
             rr.ok("%s.%s: %s reset after the write on every path" % (S, f.flush.name, path))
         else:
+            if not rs:
+                _stored_in_helper(f.flush, path)
             rr.bad(ctx.finding(rid, f.flush, f.flush.node, "%s is not reset after the batch is written on every path: %s" % (path, why), construct="no-reset " + path), "flush resets %s" % path)
 
     # ---- __call__: exactly one append of the kwargs, one increment, then the cut test
@@ -626,8 +655,93 @@ def reaper_files_expr(ctx, init):
     return d[1] if d is not None else None
 
 
+def inline_helpers(ctx, fi, e, depth=0):
+    """`e` with every call of a one-return function of the package (module level, closure, or a method reached through
+    self / an attribute of self) replaced by the returned expression, actuals substituted for the parameters.  Calls that
+    do not resolve, or helpers of another shape, are left as they are."""
+    from ..util import callee_func
+    if depth > 2:
+        return e
+
+    class copy:       # a structural copy that does not follow the loader's parent links
+        @staticmethod
+        def deepcopy(n):
+            return ast.parse(ast.unparse(n), mode="eval").body
+
+    class Sub(ast.NodeTransformer):
+        def __init__(self, m):
+            self.m = m
+
+        def visit_Name(self, n):
+            if isinstance(n.ctx, ast.Load) and n.id in self.m:
+                return copy.deepcopy(self.m[n.id])
+            return n
+
+    class Inl(ast.NodeTransformer):
+        def visit_Call(self, c):
+            self.generic_visit(c)
+            try:
+                h = callee_func(ctx, fi, c)
+            except Exception:
+                h = None
+            if h is None or not hasattr(h, "node") or isinstance(h.node, ast.Lambda) or h is fi:
+                return c
+            body = [b for b in h.node.body if not (isinstance(b, ast.Expr) and isinstance(b.value, ast.Constant))]
+            # straight-line prologue of single assignments to fresh local names, folded into the returned expression
+            pre = {}
+            while len(body) > 1 and isinstance(body[0], ast.Assign) and len(body[0].targets) == 1 and isinstance(body[0].targets[0], ast.Name) \
+                    and body[0].targets[0].id not in pre and body[0].targets[0].id not in h.params:
+                pre[body[0].targets[0].id] = Sub(pre).visit(copy.deepcopy(body[0].value))
+                body = body[1:]
+            if len(body) != 1 or not isinstance(body[0], ast.Return) or body[0].value is None:
+                return c
+            if pre:
+                body = [ast.Return(value=Sub(pre).visit(copy.deepcopy(body[0].value)))]
+            if any(isinstance(a, ast.Starred) for a in c.args) or any(k.arg is None for k in c.keywords) or h.node.args.vararg or h.node.args.kwarg:
+                return c
+            pars = list(h.positional)
+            m = {}
+            if h.cls is not None and pars and pars[0] == "self":
+                if not isinstance(c.func, ast.Attribute):
+                    return c
+                m["self"] = c.func.value
+                pars = pars[1:]
+            if len(c.args) > len(pars):
+                return c
+            for p_, a_ in zip(pars, c.args):
+                m[p_] = a_
+            for k in c.keywords:
+                if k.arg in m or k.arg not in h.params:
+                    return c
+                m[k.arg] = k.value
+            dfl = h.defaults()
+            for p_ in pars + list(h.kwonly):
+                if p_ not in m:
+                    if p_ not in dfl:
+                        return c
+                    m[p_] = dfl[p_]
+            # free names of the helper other than its parameters must mean the same at the call site: module-level names only
+            free = {x.id for x in ast.walk(body[0].value) if isinstance(x, ast.Name)} - set(m)
+            if h.parent is not None and any(f_ in h.parent.params or f_ in {t.id for a in ast.walk(h.parent.node) if isinstance(a, ast.Assign) for t in a.targets if isinstance(t, ast.Name)} for f_ in free) and h.parent is not fi and h.parent is not fi.parent:
+                return c
+            ctx.touch(h)
+            out = Sub(m).visit(copy.deepcopy(body[0].value))
+            return inline_helpers(ctx, h, out, depth + 1) if depth < 2 else out
+    out = Inl().visit(copy.deepcopy(e))
+    ast.fix_missing_locations(out)
+    for n in ast.walk(out):
+        for ch in ast.iter_child_nodes(n):
+            ch._parent = n
+    return out
+
+
 def as_comprehension(ctx, fi, e):
-    """`map(f, it)` with f a one-return function / method of one argument, rewritten as `(<return expr> for <param> in it)`"""
+    """`map(f, it)` with f a one-return function / method of one argument, rewritten as `(<return expr> for <param> in it)`;
+    one-return helpers called in the element are inlined"""
+    return inline_helpers(ctx, fi, _as_comprehension(ctx, fi, e))
+
+
+def _as_comprehension(ctx, fi, e):
     if isinstance(e, ast.Call) and isinstance(e.func, ast.Name) and e.func.id == "map" and len(e.args) == 2 and not e.keywords:
         fe = e.args[0]
         target = None
